@@ -43,7 +43,7 @@ def _wsd(las, names):
     return None
 
 
-def _check_las(las, xs, cols, names, sel, tol, well, step_mnems=('STEP',), skip_x=()):
+def _check_las(las, xs, cols, names, sel, tol, well, step_mnems=('STEP',), x_rows=None):
     """xs: X of every source frame; cols: source values per written channel (list of lists over all frames); sel: selected indices;
     well: the expected (STRT, STOP, STEP) numbers - what the property demands, or, for a listed finding, EXACTLY what that finding is
     documented to produce instead (never 'anything'); an entry None means that line is not decided (STEP of a single row)."""
@@ -58,9 +58,9 @@ def _check_las(las, xs, cols, names, sel, tol, well, step_mnems=('STEP',), skip_
     for ci, col in enumerate([xs] + cols):
         got = [float(v) for v in np.ma.getdata(fr.channels[ci].array).flatten()]
         want = [float(col[i]) for i in sel]
-        for k_, (g, w) in enumerate(zip(got, want)):
-            if ci == 0 and k_ in skip_x:
-                continue
+        if ci == 0 and x_rows is not None:
+            want = [float(v) for v in x_rows]      # a listed finding that changes the X column, stated exactly
+        for g, w in zip(got, want):
             if abs(g - w) > tol:
                 return False
     for mnems, want in ((['STRT'], well[0]), (['STOP'], well[1]), (list(step_mnems), well[2])):
@@ -217,9 +217,7 @@ def _lis(f1, indirect, tif, kind, a, b, c):
         # optical units: an implied X in .1IN is written in feet; the recorded DEPT channel is already in feet
         xs = [float(row[0]) for row in model]
         xs_well = None
-        skip_x = ()
-        if indirect and EXCL('lis_tolas_implied_x_after_record_boundary'):
-            skip_x = tuple(i for i in range(len(sel)) if H6._known_x_var(sel, fpr, i))
+        known_x = indirect and EXCL('lis_tolas_implied_x_after_record_boundary')
         if indirect and EXCL('lis_tolas_indirect_x_units'):
             # known: with an implied X the data rows are in the recorded units (.1IN) but STRT/STOP/STEP are in optical units (feet)
             xs_well = [row[0] / 120.0 for row in model]
@@ -230,14 +228,14 @@ def _lis(f1, indirect, tif, kind, a, b, c):
             sel = _known_written(kind, a, b, c, len(model))
             if len(sel) == 0:
                 return True
-            if skip_x != ():
-                skip_x = tuple(i for i in range(len(sel)) if H6._known_x_var(sel, fpr, i))
         xw = xs_well if xs_well is not None else xs
         well = _well_strict(xw, sel)
         if EXCL('lis_tolas_well_section_ignores_slice'):
             # listed finding, tolerated exactly: STRT / STOP are the first / last X of the WHOLE log pass, STEP the frame spacing times the selector's step
             well = (xw[0], xw[-1], (xw[1] - xw[0]) * _known_first_step(kind, a, b, c, len(model))[1])
-        return _check_las(las, xs, cols, names, sel, 0.0006, well, skip_x=skip_x)
+        # listed finding (inherited from C06), tolerated exactly: the implied X column the documented extrapolation yields
+        x_rows = H6._known_x_values(sel, fpr, lambda g_: xs[g_], xs[1] - xs[0]) if known_x else None
+        return _check_las(las, xs, cols, names, sel, 0.0006, well, x_rows=x_rows)
     finally:
         shutil.rmtree(tmp, ignore_errors=True)
 
